@@ -560,8 +560,11 @@ def r17_3(ctx):
         t2 = norm(els.test) if els else None
         b2 = [norm(s.value) for s in els.body if isinstance(s, ast.Assign)] if els else []
         final = els.orelse if els else []
-        ok = t1 == f"{p0}.endswith('.gz')" and b1 == [f"gzip.open({p0}, 'rt')"] and t2 == f"{p0}.endswith('.gfa')" and b2 == [f"open({p0}, 'r')"] and any(isinstance(s, ast.Raise) for s in final)
-        detail = {"gz": b1, "plain": b2}
+        # the two suffix tests exclude each other, so they may come in either order
+        arms = {t1: b1, t2: b2}
+        gz_, pl_ = arms.get(f"{p0}.endswith('.gz')"), arms.get(f"{p0}.endswith('.gfa')")
+        ok = gz_ == [f"gzip.open({p0}, 'rt')"] and pl_ in ([f"open({p0}, 'r')"], [f"open({p0}, 'rt')"], [f"open({p0})"]) and any(isinstance(s, ast.Raise) for s in final)
+        detail = {"gz": gz_ if gz_ is not None else b1, "plain": pl_ if pl_ is not None else b2}
     ctx.check(ok, "R17.3", rg.where(), "the graph reader opens *.gz with gzip.open(..., 'rt') and *.gfa with open(..., 'r') - the same text lines either way - and rejects any other name", key_of(rg, f"graph-opener:{detail}"), **detail)
     # who opens graph files elsewhere
     others = []
